@@ -122,13 +122,17 @@ def parse_case(draw, tier):
         extra.append([code, t, draw(S.tree_for(t))])
     n = S.n_header_fields(msg, nextra)
     order = draw(st.permutations(list(range(n)))) if draw(st.booleans()) else None
-    return {'msg': msg, 'little': draw(st.booleans()), 'order': order, 'extra': extra}
+    return {'msg': msg, 'little': draw(st.booleans()), 'order': order, 'extra': extra,
+            'flag_bits': draw(st.sampled_from([0, 0, 0x4, 0x8, 0xfc]))}
 
 
 def run_parse(case):
     from txdbus import message as MSG
     msg = case['msg']
     raw = S.ref_message_bytes(msg, case['little'], case['order'], [tuple(e) for e in case['extra']])
+    if case.get('flag_bits'):
+        # flag bits this implementation does not know (e.g. ALLOW_INTERACTIVE_AUTHORIZATION = 0x4) must be ignored
+        raw = raw[:2] + bytes([raw[2] | case['flag_bits']]) + raw[3:]
     R.decode_message(raw)   # the reference accepts its own output (harness sanity)
     try:
         p = MSG.parseMessage(raw, [])
@@ -151,6 +155,8 @@ def classify_parse(case):
         labels.append('permuted')
     if case['extra']:
         labels.append('unknown_fields')
+    if case.get('flag_bits'):
+        labels.append('unknown_flag_bits')
     if msg['no_reply'] or msg['no_auto']:
         labels.append('nondefault_flag')
     return (not case['little']) or case['order'] is not None or bool(case['extra']) or msg['no_reply'] or \
